@@ -611,6 +611,74 @@ def oracle(ctx, scale):
                 ctx.note(f"largest first-pass discrepancy, {lab}: {w[3]:.4f} ({w[0]}, {w[4]}, {w[2]}^3); a sign error "
                          f"gives 2.0, an axis error O(1)")
     ctx.sample(dict(pairs=pairs + extra, tb_plan=tb_plan, kp_plan=[p[:4] for p in kp_plan]))
+    history_oracle(ctx, rs, table, thorough)
+
+
+def history_oracle(ctx, rs, table, thorough):
+    """call HISTORIES: the same calculator objects are reused across models with different numbers of bands, cell volumes,
+       FFT grids and k-shifts, small -> large and large -> small; after every call the result must equal (to rounding) the
+       result of a FRESH calculator object on the same Data_K.  (Reused == fresh means the sea/surface comparison of a
+       reused object is the comparison already made with fresh ones.)"""
+    wb = _c08._wb()
+    from wannierberri.calculators import static
+    from wannierberri.grid import Grid
+    from wannierberri.grid.Kpoint import KpointBZparallel
+    from wannierberri.data_K import get_data_k_class_from_system
+    with quiet():
+        kp1, par1, _ = kp_model(rs, nband=1, subset="d1d2d3", cartesian=True)
+        kp2, par2, _ = kp_model(rs, nband=2, subset="d1d2", cartesian=bool(rs.randint(2)))
+        tb2, part = tb_model(rs, "chiral")
+        r3 = _c08.build_model(rs, "none", 3)
+        r4 = _c08.build_model(rs, "none", int(rs.choice([4, 5])))
+    systems = [("kp-1band", kp1, 1), ("kp-2band", kp2, 2), ("chiral-2band", tb2, 2), ("random-3band", r3, 3),
+               (f"random-{r4.num_wann}band", r4, r4.num_wann)]
+    ef = np.linspace(-3.0, 6.0, 19)
+    names = sorted({n for p in documented_pairs(table) for n in p} | {"AHC", "Morb", "DOS", "CumDOS", "NLDrude_Fermider2"})
+    names = [n for n in names if n in table]
+    orders = [list(range(len(systems))), list(reversed(range(len(systems))))]
+    if thorough:
+        orders.append([int(i) for i in rs.permutation(len(systems))])
+    for tetra in ((False, True) if thorough else (bool(rs.randint(2)),)):
+        for order in orders:
+            with quiet():
+                reused = {n: getattr(static, n)(Efermi=ef, tetra=tetra) for n in names}
+            hist = []
+            for i in order:
+                label, s, nb = systems[i]
+                nfft = int(rs.choice([1, 2, 3]))
+                shift = rs.uniform(0, 1, 3) / nfft
+                with quiet():
+                    grid = Grid(system=s, NK=nfft, NKFFT=nfft)
+                    kp = KpointBZparallel(K=shift * nfft, dK=np.ones(3), NKFFT=np.array([nfft] * 3), factor=1., pointgroup=None)
+                    mk = lambda: get_data_k_class_from_system(s)(s, grid=grid, dK=shift, Kpoint=kp)
+                hist.append(dict(system=label, num_wann=nb, NKFFT=nfft, cell_volume=float(s.cell_volume)))
+                for n in names:
+                    if "kp" in label and table[n]["formula"] in ("DerSpin", "VelSpin", "Spin"):
+                        continue
+                    if "kp" in label and tetra:
+                        continue                     # corner energies of a k.p box are not defined beyond the box
+                    case = dict(calculator=n, tetra=tetra, history=list(hist))
+                    try:
+                        with quiet():
+                            fresh = np.array(getattr(static, n)(Efermi=ef, tetra=tetra)(mk()).data)
+                    except Exception as e:  # noqa
+                        ctx.note(f"history: {n} cannot run on {label} even when fresh ({type(e).__name__}); skipped")
+                        continue
+                    try:
+                        with quiet():
+                            got = np.array(reused[n](mk()).data)
+                    except Exception as e:  # noqa
+                        ctx.fail(f"{n} (tetra={tetra}) reused after {[h['system'] for h in hist[:-1]]} raises on {label}: "
+                                 f"{type(e).__name__}: {str(e)[:150]} - a fresh calculator object works", case)
+                        continue
+                    scale = max(np.abs(fresh).max(), 1e-300)
+                    dev = np.abs(got - fresh).max() / scale if fresh.shape == got.shape else np.inf
+                    ctx.case(signature=("history", n, tetra, tuple(order), label, nfft), nontrivial=len(hist) > 1 and np.abs(fresh).max() > 0)
+                    ctx.count(f"oracle.history.{'tetra' if tetra else 'plain'}")
+                    if dev > 1e-10:
+                        ctx.fail(f"{n} (tetra={tetra}): a calculator object reused after {[h['system'] for h in hist[:-1]]} gives a "
+                                 f"result on {label} that differs from a fresh object's by {dev:.3e} (relative)",
+                                 dict(case, reused=got[len(got) // 2], fresh=fresh[len(fresh) // 2]))
 
 
 def replay(ctx, case):
